@@ -583,9 +583,13 @@ def run_scan(env, case):
 # --------------------------------------------------------------------------------------------------------------
 TESTS = [
     Test("history", history_case, run_history, quick=150, thorough=5000,
-         cfgs={"quick": ["prod", "vsan"], "thorough": ["prod", "vsan", "int64", "struct"]},
+         cfgs={"quick": ["prod", "vsan"], "thorough": ["prod", "vsan"]},
          must_cover=["op:create", "op:pcreate", "op:clone", "op:pclone", "op:rand", "op:randnull", "op:sha", "op:destroy",
                      "probe:randomized+cloned", "probe:own_sha256", "randomized>=2x", "clone_of_randomized", "clone_with_own_sha256", "probe:prealloc"]),
+    # the same machine on the other limb / table configurations (comb 11x6 and 2x5, window 5 and 2, int128-struct and int64 arithmetic)
+    Test("history_cfg", history_case, run_history, quick=24, thorough=600,
+         cfgs={"quick": ["struct", "int64"], "thorough": ["struct", "int64", "noasm"]}, max_workers=2,
+         must_cover=["probe:randomized+cloned", "randomized>=2x"]),
     Test("static_real", lambda: static_case, run_static_real, quick=40, thorough=1500, cfgs={"quick": ["extcb"], "thorough": ["extcb"]},
          must_cover=["strong:same", "not_static:illegal+ret0"], max_workers=4),
     Test("static_copy", lambda: static_case, run_static_copy, quick=40, thorough=1500, cfgs={"quick": ["prod", "vsan"], "thorough": ["prod", "vsan", "int64"]},
